@@ -247,10 +247,21 @@ def runPl (w : List String) : String :=
     | _, _ => "bad-op"
   | _ => "bad-op"
 
+/-- `ses <seed> <n> <t> <i> <ls>`: three sessions over one member slice (go/props/c08 execSes). The code as it is
+carries nothing from one session to the next, so each session is an `enc` case of its own: the list the deal was
+made for, the edited list, the original list again. -/
+def runSes (w : List String) : String :=
+  match w with
+  | [_, seed, n, t, i, ls] =>
+    let one (l : String) : String := ((runEnc ["enc", seed, n, t, i, i, "same", l, "-"]).splitOn " fresh=").headD ""
+    s!"s1=[{one "same"}] s2=[{one ls}] s3=[{one "same"}]"
+  | _ => "bad-op"
+
 def step (line : String) : String :=
   let w := words line
   match w.head? with
   | some "enc" => runEnc w
+  | some "ses" => runSes w
   | some "pl" => runPl w
   | _ => "bad-op"
 
